@@ -2,25 +2,52 @@
 
 A query is a small *expression tree* (class X) from which BOTH the Python source text handed to Pony
 and the reference result are derived; source text is never evaluated with Python's `None == 2`
-semantics. The module provides
+semantics.
 
-  schema      define(db)                      Person/Student, Dept, Tag on any pony Database
-  data        dataset(name) -> Data           'pairs' (pairwise product of boundary values + grouped
-                                              rows), 'small' (4 persons); Data is also the plain
-                                              Python mirror (lists of Obj with the same attributes)
-              get_db(name='pairs') -> (db, data)   per-process in-memory SQLite, loaded
-  trees       X(op, t, a, v), helpers var/attr/const/param/call, PRODS (production table),
-              src(x) -> python source, params_of(x), walk(x), to_json/from_json
-  evaluator   Evaluator(data).value(x, env)   typed three-valued reference evaluator
-  queries     Query(fors, proj, conds, order, ...)   .source(frontend), .run(db, frontend),
-              .expected(data) -> Expected ; compare(expected, got) -> list of Mismatch
-  attribution skeleton(x), leaf_classes(x, env), minimal_failing(...)  (used by C01)
+  schema       define(db)                   Person/Student(Person), Dept, Tag on any pony Database: int, nullable
+                                            int/str, str, bool, float, Decimal, date, one-to-many Dept.persons,
+                                            many-to-many Person.tags, hybrid properties/methods (HYBRIDS);
+                                            SCHEMA describes the attribute types for the tree builders
+  data         dataset(name) -> Data        'pairs': pairwise product (covering array) of the boundary values in
+                                            DOMAINS + grouped rows (all-None group, duplicates, empty dept, unused
+                                            tag); 'small': 4 persons; 'empty'. Data(name, depts, tags, persons) builds
+                                            any other; Data is also the plain-Python mirror (.persons/.depts/.tags
+                                            lists of Obj with the same attributes and relationships, .ents, .get)
+               load(db, data); get_db(name) -> (db, data)   per-process in-memory SQLite, created on first use
+               (call get_db inside the worker after fork: an inherited :memory: connection is not usable)
+               clear_caches(db)             drop Pony's translation caches (memory over 10^5 query texts)
+  trees        X(op, t, a, v); var(name, ent), attr(base, name), const(v), param(name, v), call(op, t, *a),
+               hybrid(base, name, *args), Ref(ent, pk) (entity instance as parameter), X('gen', ms(t),
+               (elt, source, *conds), varname) nested generator, X('ent', ms(E), (), E) entity as source;
+               PRODS production table (prod(name, fmt, fn=strict python function | lazy=f(ev, x, env)));
+               src(x) python text, params_of(*xs), walk(x), depth(x), to_json / from_json
+  evaluator    Evaluator(data).value(x, env) / .cond(x, env); Env(vars); Undef; typed three-valued
+  queries      Query(fors, proj, conds=(), order=(), order_style='lambda'|'str', dataset='pairs')
+               .source(frontend) text, .make(db, frontend) -> pony Query (inside db_session; get_sql() etc.),
+               .run(db, frontend) -> normalised rows, .expected(data[, ev]) -> Expected(mode set|bag, rows, ...),
+               .distinct(), .to_json()/Query.from_json(); FRONTENDS = 'str' select("text") | 'gen' select(generator
+               compiled from the same text) | 'lam' Entity.select(lambda)[.filter(lambda)...]
+               compare(expected, got, order=None) -> [Mismatch(kind, row, got, col)]   (empty = agreement)
+               same(type, expected_value, got_value), norm_row, EntRef
+  grammar      signatures(), grammar_leaves(v, pruned), collection_leaves(v), enumerate_exprs(v, depth),
+               apply_signatures(...), prods_in(x)
+  attribution  op_skeleton(x), kind_skeleton(x), skeleton(x), operand_classes(ev, x, env), value_class(v),
+               dead_navigation(ev, x, env)
 
-Conventions (DESIGN section 2 QX): comparisons with a None operand are Unknown (None); truth
-coercion of a value maps None to False; a filter keeps True only; aggregates ignore None, sum of
-nothing is 0, min/max/avg/group_concat of nothing are None; count(collection of non-entities) is
-DISTINCT; `x not in (subquery)` ignores None items; where Python has no answer (ZeroDivisionError,
-attribute of None, IndexError, ordering of None) both outcomes are accepted.
+Conventions of the reference evaluator (DESIGN section 2 QX): value expressions evaluate to Python values,
+None propagates through operators and functions; boolean expressions evaluate in Kleene logic with None as
+Unknown; a comparison with a None operand is Unknown; coercing a *value* to truth maps None to False (the row
+is marked lenient: a *projected* truth value computed that way may also come back as None); a filter keeps True
+only; and/or short-circuit like Python; a conditional with an Unknown test takes the else branch. Aggregates
+ignore None, sum of nothing is 0, min/max/avg/group_concat of nothing are None; count() of non-entity values is
+DISTINCT; an aggregate over an attribute-lifted collection (sum(p.tags.w)) in a projection without the full
+primary keys makes the query grouped by the plain columns; `x in/not in collection` ignores None items.
+Results are a set when the row does not carry the primary key of every iterated entity, a bag otherwise, and a
+sequence up to ties (None keys unordered) when ordered. Where Python itself has no answer or the statement
+fixes none - ZeroDivisionError, int('ab'), IndexError, a None slice bound, None against a non-empty collection,
+a miss in a collection holding None, `None in 'text'`, attribute of None (row dropped or None), any use of a
+group_concat value (unspecified order) - the row is optional and, except for the attribute case, its values
+arbitrary. Numbers compare by value (1 == 1.0), floats with relative tolerance 1e-9, Decimal with 0.005.
 """
 import os, math, itertools, decimal, json, warnings
 warnings.filterwarnings('ignore', category=SyntaxWarning)
@@ -548,11 +575,11 @@ class Data(object):
         raise KeyError((ent, pk))
 
 DOMAINS = [
-    ('n', [None, -3, 0, 2]), ('m', [-3, 0, 2, 5]), ('s', [None, '', 'ab', 'A_b%']), ('t', ['b', 'ab', 'A_', ' b\t', '\xc9a']),
+    ('n', [None, -3, 0, 2]), ('m', [-3, 0, 2, 5]), ('s', [None, '', 'ab', 'A_b%']), ('t', ['b', 'ab', 'A_', ' b\t', '\xc9\xe9']),
     ('b', [None, False, True]), ('f', [None, -1.5, 0.0, 2.5]),
     ('d', [None, Decimal('-1.50'), Decimal('0.00'), Decimal('2.25')]),
     ('dt', [None, date(2020, 2, 29), date(2021, 12, 31), date(2021, 1, 1)]),
-    ('dept', [None, 1, 2, 3]), ('tags', [(), (1,), (1, 2), (2, 3)]), ('cls', ['Person', 'Student']),
+    ('dept', [None, 1, 2, 3]), ('tags', [(), (1,), (1, 3), (2, 3, 5)]), ('cls', ['Person', 'Student']),
 ]
 
 def pairwise(domains):
@@ -591,14 +618,14 @@ _DATASETS = {}
 def dataset(name='pairs'):
     if name in _DATASETS: return _DATASETS[name]
     depts = [(1, 'R&D', 100), (2, 'Ops', None), (3, 'a_b', -5), (4, 'Empty', 0), (5, 'Nulls', 7), (6, 'Dup', 2)]
-    tags = [(1, 'x', 1), (2, 'y', None), (3, 'x', -2), (4, 'unused', 5)]
+    tags = [(1, 'x', 1), (2, 'y', None), (3, 'x', 1), (4, 'unused', 5), (5, 'z', -2)]   # 1 and 3 share label and w: DISTINCT matters
     if name == 'pairs':
         rows = pairwise(DOMAINS)
         base = dict(m=2, s='ab', t='b', b=True, f=0.0, d=Decimal('0.00'), dt=date(2021, 1, 1), tags=(), cls='Person')
         # grouped rows: a group whose n/f/d are all None (dept 5), duplicates inside a group (dept 6)
         rows += [dict(base, n=None, f=None, d=None, s=None, dept=5, b=None, dt=None),
                  dict(base, n=None, f=None, d=None, s=None, dept=5, m=3, b=None, dt=None),
-                 dict(base, n=2, dept=6, tags=(1,)), dict(base, n=2, dept=6, tags=(1, 3)), dict(base, n=-3, dept=6, m=-3, f=2.5)]
+                 dict(base, n=2, dept=6, tags=(1,)), dict(base, n=2, dept=6, tags=(1, 2)), dict(base, n=-3, dept=6, m=-3, f=2.5)]
         persons = []
         for i, r in enumerate(rows):
             r = dict(r, id=i + 1)
@@ -999,7 +1026,7 @@ def canon(v):
     return v
 
 class Mismatch(object):
-    """kind: 'value' (row present, wrong column), 'missing', 'extra', 'duplicate', 'order'"""
+    """kind: 'value' (row present, wrong column), 'missing', 'extra', 'duplicate', 'sequence'"""
     def __init__(self, kind, row=None, got=None, col=None):
         self.kind, self.row, self.got, self.col = kind, row, got, col
     def __repr__(self): return 'Mismatch(%s exp=%r got=%r)' % (self.kind, self.row and self.row.vals, self.got)
@@ -1102,7 +1129,7 @@ def check_order(exp, got, order):
     for i in range(len(keys)):
         for j in range(i + 1, len(keys)):
             if _lt(keys[j], keys[i]) is True:
-                return [Mismatch('order', ek[tuple(canon(got[i][c]) for c in kidx)], got[j])]
+                return [Mismatch('sequence', ek[tuple(canon(got[i][c]) for c in kidx)], got[j])]
     return []
 class _Rev(object):
     __slots__ = ('v',)
@@ -1436,7 +1463,11 @@ def operand_classes(ev, x, env):
     out = []
     kids = [x] if (is_leaf(x) or is_external(x)) else [c for c in x.a if c.op not in ('var', 'ent')]
     for c in kids:
-        try: out.append(value_class(ev.value(c, Env(env.vars)), fine=x.op in FINE_STR))
+        e = Env(env.vars)
+        try:
+            cl = value_class(ev.value(c, e), fine=x.op in FINE_STR)
+            if c.t == COND and 'coerced' in e.flags: cl += '(None operand coerced)'
+            out.append(cl)
         except Undef: out.append('undef')
     return ','.join(out)
 
